@@ -10,7 +10,7 @@ from harness.common import _plain, _py, elems
 
 META = dict(
     bounds=dict(
-        quick="(1) harnesses stationary / converged / sequential: linear coupled systems y_i = sum_j A_ij y_j + B_i x + c_i with CONCRETE rational contraction matrices A (||A||_inf < 1; rings of 2-3 disciplines, a self-coupled discipline, two strongly connected components), symbolic inputs x and symbolic initial couplings; at most K=2 sweeps (max_mda_iter=K); MDAJacobi, MDAGaussSeidel, MDAChain/MDASequential built from them; over-relaxation factors {1, 1/2, 3/2}; residual scalings NO_SCALING and N_COUPLING_VARIABLES.  "
+        quick="(1) harnesses stationary / converged / sequential: linear coupled systems y_i = sum_j A_ij y_j + B_i x + c_i with CONCRETE rational contraction matrices A (||A||_inf < 1; rings of 2-3 disciplines, a self-coupled discipline, two strongly connected components), symbolic inputs x and symbolic initial couplings; at most K=2 sweeps (max_mda_iter=K); MDAJacobi, MDAGaussSeidel, MDAChain/MDASequential built from them; over-relaxation factors {1, 1/2, 3/2}; residual scalings NO_SCALING and N_COUPLING_VARIABLES, and (MDAJacobi, concrete tolerance 1/4) INITIAL_SUBRESIDUAL_NORM with the bound ||A|| * tol * max_j s_j, s_j the initial sub-residual or 1 when it is zero.  "
               "(2) harness newton (harness/C06x.py): MDANewtonRaphson, MDAGSNewton, MDASequential([MDAJacobi | MDAGaussSeidel, MDANewtonRaphson]) and MDAChain(inner_mda_name='MDANewtonRaphson') on AFFINE systems with concrete dyadic coefficients "
               "(the affine disciplines of harness/C07.py with their exact Jacobians: ring2, ring2v and n_self2 with variables of size 2, self / n_self1 self-coupled, ring3; through MDAChain: weak = weakly coupled disciplines around a strongly coupled pair, "
               "n_two_scc = two strongly connected components and a weakly coupled discipline), symbolic inputs, symbolic initial couplings, symbolic tolerance; max_mda_iter K in {1, 2, 3}; matrix_type matrix (sparse path) and linear_operator; "
@@ -209,8 +209,12 @@ def h_converged(ctx, cfg):
     x = {k: ctx.real(k) for k in xs}
     y0 = {k: ctx.real(k + "_init") for k in ys}
     mda = _build_mda(cfg, discs)
-    tol = ctx.real("tol")
-    ctx.assume(ctx.lt(0.0, tol))
+    sub = cfg.get("scaling") == "initial_subresidual_norm"
+    if sub:
+        tol = 0.25  # concrete: the bound below multiplies the tolerance by the (symbolic) initial sub-residuals
+    else:
+        tol = ctx.real("tol")
+        ctx.assume(ctx.lt(0.0, tol))
     _set_tolerance(mda, tol)
     _set_scaling(mda, cfg)
     data = {k: ctx.array([v]) for k, v in {**x, **y0}.items()}
@@ -233,6 +237,18 @@ def h_converged(ctx, cfg):
     nA = _norm_inf_A(system)
     scale = 1.0 if cfg.get("scaling") == "no_scaling" else 2.0  # N_COUPLING_VARIABLES divides by sqrt(n) <= 2 for n <= 4
     bound = (float(nA) * scale) * tol if not ctx.symbolic else _frac(nA * Fraction(int(scale))) * tol
+    if sub:
+        # INITIAL_SUBRESIDUAL_NORM (MDAJacobi, scalar couplings): the MDA monitors max_j |r_j| / s_j with s_j = |r_j^0| for the residual
+        # r^0 = G(x, y^0) - y^0 of its first sweep, and s_j = 1 when that is zero (documented).  A convergence claim therefore gives
+        # |r_j| <= tol * s_j for EVERY coupling j, hence |G_i(y) - y_i| = |(A r)_i| <= ||A|| * tol * max_j s_j.
+        g0 = _G(system, x, y0)
+        smax = None
+        for k in ys:
+            r0 = g0[k] - y0[k]
+            a = ctx.ite(ctx.le(0.0, r0), r0, -r0)
+            sj = ctx.ite(ctx.eq(r0, 0.0), 1.0, a)
+            smax = sj if smax is None else ctx.ite(ctx.le(smax, sj), sj, smax)
+        bound = (float(nA) * tol) * smax if not ctx.symbolic else _frac(nA * Fraction(1, 4)) * smax
     for k in ys:
         d = g[k] - yr[k]
         ctx.check(f"converged => |G_{k}(y) - {k}| <= ||A|| * tol", ctx.implies(small, ctx.and_(ctx.le(d, bound), ctx.le(-bound, d))))
@@ -313,6 +329,11 @@ def configs(tier):
         for mda in ("jacobi", "gs"):
             for order in (list(range(n)), list(reversed(range(n)))):
                 out.append(("converged", dict(system=system, mda=mda, K=K, order=order, scaling="no_scaling", terminates=True)))
+    # residual scaling by the initial sub-residuals (a zero initial sub-residual is scaled by 1, not dropped)
+    for K in ((2, 3) if tier == "quick" else (2, 3, 4)):
+        out.append(("converged", dict(system="ring2", mda="jacobi", K=K, scaling="initial_subresidual_norm")))
+    if tier != "quick":
+        out.append(("converged", dict(system="ring3", mda="jacobi", K=3, scaling="initial_subresidual_norm")))
     return out
 
 
